@@ -77,14 +77,14 @@ def _alignment(prog, rep, factories):
     # general paths
     cg = prog.func("optyx.core.compiler:compile_gradient")
     ok = any(isinstance(n_, ast.ListComp) and src(n_.elt).startswith("gradient(expr, ") and src(n_.generators[0].iter) == "variables" for n_ in walk_local(cg.node))
-    rep.ob("R03.1", "compile_gradient", ok, "entry j is d/d variables[j]" if ok else "general gradient is not [gradient(expr, var) for var in variables]", loc=cg.loc, detail="general")
+    rep.pin("general derivative paths", "R03.1", "compile_gradient", ok, "entry j is d/d variables[j]" if ok else "general gradient is not [gradient(expr, var) for var in variables]", loc=cg.loc, detail="general")
     cj = prog.func("optyx.core.autodiff:compute_jacobian")
     ok = "[gradient(expr, var) for var in variables]" in src(cj.node) and "expr.jacobian_row(variables)" in src(cj.node)
-    rep.ob("R03.1", "compute_jacobian", ok, "row i: expr_i, column j: variables[j]" if ok else "compute_jacobian does not build rows over `variables` in order", loc=cj.loc, detail="general")
+    rep.pin("general derivative paths", "R03.1", "compute_jacobian", ok, "row i: expr_i, column j: variables[j]" if ok else "compute_jacobian does not build rows over `variables` in order", loc=cj.loc, detail="general")
     cjf = prog.func("optyx.core.autodiff:compile_jacobian")
     s = src(cjf.node)
     ok = "result[i, j] = compiled_elements[i][j](x)" in s and "compile_expression(jacobian_exprs[i][j], variables) for j in range(n)" in s and "for i in range(m)" in s
-    rep.ob("R03.1", "compile_jacobian.jacobian_fn", ok, "result[i, j] is the compiled (i, j) entry" if ok else "the general Jacobian closure does not fill result[i, j] from entry (i, j)", loc=cjf.loc, detail="general")
+    rep.pin("general derivative paths", "R03.1", "compile_jacobian.jacobian_fn", ok, "result[i, j] is the compiled (i, j) entry" if ok else "the general Jacobian closure does not fill result[i, j] from entry (i, j)", loc=cjf.loc, detail="general")
 
 
 # ------------------------------------------------------------------------------------------------ R03.2 / R03.3
@@ -287,13 +287,13 @@ def _jacobian_rows(prog, rep):
                    loc=loc, detail="container-operand")
         if cname == "VectorSum":
             ok = "Constant(1.0)" in s and "Constant(0.0)" in s and "if var in my_vars" in s and "my_vars = set(self.vector._variables)" in s
-            rep.ob("R03.4", "VectorSum.jacobian_row", ok, "1 for members, 0 otherwise, in the order of `variables`" if ok else "row is not [1 if var in vector else 0 for var in variables]", loc=loc, detail="row")
+            rep.pin("jacobian_row shape rules", "R03.4", "VectorSum.jacobian_row", ok, "1 for members, 0 otherwise, in the order of `variables`" if ok else "row is not [1 if var in vector else 0 for var in variables]", loc=loc, detail="row")
         elif cname == "LinearCombination":
             ok = "for i, var in enumerate(self.vector._variables)" in s and "var_to_coeff[var] = float(self.coefficients[i])" in s and "[Constant(var_to_coeff.get(v, 0.0)) for v in variables]" in s
-            rep.ob("R03.4", "LinearCombination.jacobian_row", ok, "coefficient by position of the variable in the vector; 0 otherwise" if ok else "coefficients are not matched to variables by their position in the vector", loc=loc, detail="row")
+            rep.pin("jacobian_row shape rules", "R03.4", "LinearCombination.jacobian_row", ok, "coefficient by position of the variable in the vector; 0 otherwise" if ok else "coefficients are not matched to variables by their position in the vector", loc=loc, detail="row")
         elif cname == "QuadraticForm":
             ok = "Q_plus_QT = self.matrix + self.matrix.T" in s and "var_to_idx: dict[Variable, int] = {v: i for i, v in enumerate(vec_vars)}" in s and "coeffs = Q_plus_QT[i, :]" in s and "LinearCombination(coeffs, self.vector)" in s and "i = var_to_idx[var]" in s
-            rep.ob("R03.4", "QuadraticForm.jacobian_row", ok, "row entry for x_i is ((Q + Q')[i, :]) . x" if ok else "row entry is not LinearCombination((Q + Q.T)[i, :], vector) for the position i of the variable", loc=loc, detail="row")
+            rep.pin("jacobian_row shape rules", "R03.4", "QuadraticForm.jacobian_row", ok, "row entry for x_i is ((Q + Q')[i, :]) . x" if ok else "row entry is not LinearCombination((Q + Q.T)[i, :], vector) for the position i of the variable", loc=loc, detail="row")
         elif cname in ("VectorPowerSum", "VectorUnarySum"):
             loops = [n for n in walk_local(m.node) if isinstance(n, ast.For)]
             inner = [n for n in loops[0].body if isinstance(n, ast.If)] if loops else []
@@ -342,7 +342,7 @@ def _jacobian_rows(prog, rep):
             _binop_row(rep, m)
         elif cname == "MatrixSum":
             ok = "Constant(1.0) if var in my_vars else Constant(0.0) for var in variables" in s
-            rep.ob("R03.4", "MatrixSum.jacobian_row", ok, "1 for members, 0 otherwise" if ok else "row is not [1 if var in matrix else 0]", loc=loc, detail="row")
+            rep.pin("jacobian_row shape rules", "R03.4", "MatrixSum.jacobian_row", ok, "1 for members, 0 otherwise" if ok else "row is not [1 if var in matrix else 0]", loc=loc, detail="row")
 
 
 def _append_paths(body):
@@ -373,7 +373,7 @@ def _append_paths(body):
 def _dot_row(rep, m):
     s = src(m.node)
     ok_same = "if self.left is self.right:" in s and "BinaryOp(Constant(2.0), v, '*')" in s.replace('"', "'")
-    rep.ob("R03.4", "DotProduct.jacobian_row", ok_same, "x.x (identical object): 2*x_i" if ok_same else "the x.x case is not guarded by object identity or is not 2*x_i", loc=m.loc, detail="same-vector")
+    rep.pin('DotProduct.jacobian_row', "R03.4", "DotProduct.jacobian_row", ok_same, "x.x (identical object): 2*x_i" if ok_same else "the x.x case is not guarded by object identity or is not 2*x_i", loc=m.loc, detail="same-vector")
     # membership partition: truth table over `var in left_lookup` / `var in right_lookup`
     loops = [n for n in walk_local(m.node) if isinstance(n, ast.For) and src(n.iter) == "variables"]
     if not loops:
@@ -414,18 +414,18 @@ def _dot_row(rep, m):
                     taken = (res, node)
                     break
             if taken is None:
-                rep.ob("R03.4", "DotProduct.jacobian_row", False, f"no entry is appended when in-left={inL}, in-right={inR}: the row gets shorter than `variables`", loc=m.loc, detail=f"partition:{inL},{inR}")
+                rep.pin('DotProduct.jacobian_row', "R03.4", "DotProduct.jacobian_row", False, f"no entry is appended when in-left={inL}, in-right={inR}: the row gets shorter than `variables`", loc=m.loc, detail=f"partition:{inL},{inR}")
                 continue
             rs = src(taken[0])
             usesL, usesR = "left_lookup" in rs, "right_lookup" in rs
             want = (inL, inR)
             ok = (usesL, usesR) == want if (inL or inR) else rs == "Constant(0.0)"
-            rep.ob("R03.4", "DotProduct.jacobian_row", ok,
+            rep.pin('DotProduct.jacobian_row', "R03.4", "DotProduct.jacobian_row", ok,
                    f"in-left={inL}, in-right={inR}: entry {rs[:50]}" if ok else
                    f"a variable with in-left={inL}, in-right={inR} gets the entry `{rs[:60]}`" + (": the contribution of the other operand is dropped (x[0:2].dot(x[1:3]) gives [2,3,2] instead of [2,4,2])" if inL and inR else ""),
                    loc=f"{m.module.rel}:{taken[1].lineno}", detail=f"partition:{'L' if inL else '-'}{'R' if inR else '-'}")
     ok = "left_lookup = {left_vars[i]: right_vars[i] for i in range(len(left_vars))}" in s and "right_lookup = {right_vars[i]: left_vars[i] for i in range(len(right_vars))}" in s
-    rep.ob("R03.4", "DotProduct.jacobian_row", ok, "partner element is the element at the same position of the other operand" if ok else "the lookup tables do not pair elements at the same position", loc=m.loc, detail="partner-position")
+    rep.pin('DotProduct.jacobian_row', "R03.4", "DotProduct.jacobian_row", ok, "partner element is the element at the same position of the other operand" if ok else "the lookup tables do not pair elements at the same position", loc=m.loc, detail="partner-position")
 
 
 def _binop_row(rep, m):
@@ -477,11 +477,11 @@ def _fast_paths(prog, rep):
     cj = prog.func("optyx.core.autodiff:compile_jacobian")
     s = src(cj.node)
     ok = "all_constant = all((isinstance(jacobian_exprs[i][j], Constant) for i in range(m) for j in range(n)))" in s
-    rep.ob("R03.5", "compile_jacobian", ok, "the pre-computed Jacobian is used only when every entry is a Constant node (never a Parameter or variable term)" if ok else "the constant fast path is not guarded by `all entries are Constant nodes`", loc=cj.loc, detail="all-constant-guard")
+    rep.pin('compile_jacobian fast paths', "R03.5", "compile_jacobian", ok, "the pre-computed Jacobian is used only when every entry is a Constant node (never a Parameter or variable term)" if ok else "the constant fast path is not guarded by `all entries are Constant nodes`", loc=cj.loc, detail="all-constant-guard")
     guarded = any(isinstance(n, ast.If) and src(n.test) == "all_constant" and "constant_jacobian_fn" in src(n) for n in walk_local(cj.node))
-    rep.ob("R03.5", "compile_jacobian", guarded, "constant closure is returned under `if all_constant`" if guarded else "the constant closure is returned outside the `all_constant` guard", loc=cj.loc, detail="constant-closure-guarded")
+    rep.pin('compile_jacobian fast paths', "R03.5", "compile_jacobian", guarded, "constant closure is returned under `if all_constant`" if guarded else "the constant closure is returned outside the `all_constant` guard", loc=cj.loc, detail="constant-closure-guarded")
     vals = "cast(Constant, jacobian_exprs[i][j]).value for j in range(n)" in s and "for i in range(m)" in s
-    rep.ob("R03.5", "compile_jacobian", vals, "const_jac[i][j] is the value of entry (i, j)" if vals else "the pre-computed matrix is not filled entry by entry in (i, j) order", loc=cj.loc, detail="constant-values")
+    rep.pin('compile_jacobian fast paths', "R03.5", "compile_jacobian", vals, "const_jac[i][j] is the value of entry (i, j)" if vals else "the pre-computed matrix is not filled entry by entry in (i, j) order", loc=cj.loc, detail="constant-values")
     sp = prog.func("optyx.core.autodiff:_is_scaled_variable_pattern")
     t = src(sp.node)
     checks = {
@@ -492,16 +492,16 @@ def _fast_paths(prog, rep):
         "non-matching=>None": t.count("return None") >= 4,
     }
     for k, v in checks.items():
-        rep.ob("R03.5", "_is_scaled_variable_pattern", v, f"{k} is required" if v else f"the scaled-row fast path does not check: {k}", loc=sp.loc, detail=k)
+        rep.pin('compile_jacobian fast paths', "R03.5", "_is_scaled_variable_pattern", v, f"{k} is required" if v else f"the scaled-row fast path does not check: {k}", loc=sp.loc, detail=k)
     use = "if m == 1:" in s and "pattern = _is_scaled_variable_pattern(jacobian_exprs[0], variables)" in s and "return (scale * x).reshape(1, -1)" in s
-    rep.ob("R03.5", "compile_jacobian", use, "scaled-row closure is scale * x for a single row matching the pattern" if use else "the scaled-row closure is not `scale * x` under m == 1 and a matched pattern", loc=cj.loc, detail="scaled-closure")
+    rep.pin('compile_jacobian fast paths', "R03.5", "compile_jacobian", use, "scaled-row closure is scale * x for a single row matching the pattern" if use else "the scaled-row closure is not `scale * x` under m == 1 and a matched pattern", loc=cj.loc, detail="scaled-closure")
     # R03.6
     cg = prog.func("optyx.core.compiler:compile_gradient")
     for kind, fac in (("VectorPowerSum", "_compile_vectorized_power_gradient"), ("VectorUnarySum", "_compile_vectorized_unary_gradient")):
         a = f"if isinstance(expr, {kind}):" in src(cg.node) and f"return {fac}(expr, variables)" in src(cg.node)
         b = f"if isinstance(expr, {kind}):" in s and f"grad_fn = {fac}(expr, variables)" in s and "if m == 1:" in s
-        rep.ob("R03.6", f"{kind}", a and b, f"compile_gradient and compile_jacobian (m == 1) both dispatch {kind} to {fac}" if a and b else f"{kind} is not dispatched to {fac} by both compile_gradient and compile_jacobian", loc=cg.loc, detail="same-factory")
+        rep.pin('compile_jacobian fast paths', "R03.6", f"{kind}", a and b, f"compile_gradient and compile_jacobian (m == 1) both dispatch {kind} to {fac}" if a and b else f"{kind} is not dispatched to {fac} by both compile_gradient and compile_jacobian", loc=cg.loc, detail="same-factory")
     ce = prog.cls("CompiledExpression")
     g = ce.methods.get("__init__")
     ok = g is not None and "self._gradient_fn = compile_gradient(expr, variables)" in src(g.node)
-    rep.ob("R03.6", "CompiledExpression", ok, "uses compile_gradient" if ok else "CompiledExpression does not obtain its gradient from compile_gradient", loc=ce.loc, detail="same-factory")
+    rep.pin('compile_jacobian fast paths', "R03.6", "CompiledExpression", ok, "uses compile_gradient" if ok else "CompiledExpression does not obtain its gradient from compile_gradient", loc=ce.loc, detail="same-factory")
